@@ -1665,7 +1665,8 @@ static void do_source_file(const char *filename_in,
 
       if (need_backup)
       {
-         backup_create_md5_file(filename_in);
+         // the new content is still in the temporary file at this point
+         backup_create_md5_file(filename_in, filename_tmp.c_str());
       }
 
       if (filename_tmp != filename_out)
